@@ -23,15 +23,16 @@ import lower
 CORPUS = os.path.join(VERIF, 'corpus', 'c01')
 CBMC_FLAGS = ['--unwinding-assertions', '--bounds-check', '--pointer-check', '--signed-overflow-check', '--div-by-zero-check',
               '--drop-unused-functions', '--no-malloc-may-fail', '--object-bits', '12', '--slice-formula']
-BASE_OPTS = ['-DCPPPARSER', '-D__STDC__=1', '-D__cplusplus=201103L', '-S' + os.path.join(lower.REPO, 'parser-inc'), '-module', 'm', '-library', 'l']
+BASE_OPTS = ['-DCPPPARSER', '-D__STDC__=1', '-D__cplusplus=201103L', '-D_LP64=1', '-S' + os.path.join(lower.REPO, 'parser-inc'), '-module', 'm', '-library', 'l']
 OPTION_SETS = {
     # wrappers are callable from outside the generated file only with -fnames; the other sets are compile-checked
     'quick': [('c_fnames', ['-c', '-fnames']), ('c_string_fnames', ['-c', '-string', '-fnames']), ('c', ['-c']),
-              ('c_promisc_fnames', ['-c', '-promiscuous', '-fnames'])],
+              ('c_promisc_fnames', ['-c', '-promiscuous', '-fnames']), ('py_string_fnames', ['-python', '-string', '-fnames'])],
     'thorough': [('c_fnames', ['-c', '-fnames']), ('c_string_fnames', ['-c', '-string', '-fnames']), ('c', ['-c']),
                  ('c_promisc_fnames', ['-c', '-promiscuous', '-fnames']), ('c_string', ['-c', '-string']),
                  ('c_fnames_fptrs', ['-c', '-fnames', '-fptrs']), ('c_fnames_uniq', ['-c', '-fnames', '-unique-names']),
-                 ('c_fnames_nodb', ['-c', '-fnames', '-nodb']), ('c_true_names', ['-c', '-true-names'])],
+                 ('c_fnames_nodb', ['-c', '-fnames', '-nodb']), ('c_true_names', ['-c', '-true-names']),
+                 ('py_string_fnames', ['-python', '-string', '-fnames']), ('py_fnames', ['-python', '-fnames']), ('py', ['-python'])],
 }
 
 
@@ -219,6 +220,93 @@ def gen_harness(corpus, optname, wrappers, refs, strmax, argov={}, variants={}):
     return '\n'.join(out), entries, skipped, missing, unused
 
 
+def gen_harness_py(corpus, optname, wrappers, refs, strmax, argov={}, variants={}):
+    """-python (simple) back end: the wrapper takes a Python argument tuple; arguments are model objects built from
+    the same symbolic values, preconditioned on lying in the C++ parameter type (they are produced FROM values of that
+    type), and the returned object must carry the direct call's result."""
+    out = ['// generated by engine/c01check.py for corpus %s, options %s (python back end)' % (corpus, optname),
+           '#define C01_STRMAX %d' % strmax, '#include "vpy.h"',
+           '#include "c01_support.h"', '#include "%s.h"' % corpus, '#include "%s.ref.h"' % corpus, '']
+    entries, skipped, missing = [], [], []
+    used_keys = set()
+    for w in wrappers:
+        if w['kind'] != 'python':
+            continue
+        key = normkey('%s(%s)' % (w['function'], ','.join(p['type']['true_name'] for p in w['params'])))
+        if w['is_destructor']:
+            skipped.append((w['name'], key, 'destructor'))
+            continue
+        if key not in refs:
+            missing.append((w['name'], key))
+            continue
+        used_keys.add(key)
+        base_cats = [classify_type(p['type']) for p in w['params']]
+        rcat = classify_type(w['return']) if w['has_return'] else ('void', 'void')
+        if any(c[0] == 'unsupported' for c in base_cats) or rcat[0] == 'unsupported':
+            skipped.append((w['name'], key, 'unsupported type'))
+            continue
+        rtype = cxx_type(w['return']) if w['has_return'] else 'void'
+        ptypes = [cxx_type(p['type']) for p in w['params']]
+        out.append('extern "C" PyObject *%s(PyObject *self, PyObject *args);' % w['name'])
+        for vn, var in enumerate([None] + variants.get(key, [])):
+            cats = list(base_cats)
+            ov = dict(argov)
+            if var is not None:
+                ov[(key, var[0])] = var[1]
+            ename = 'h_' + ident(w['name']) + ('' if var is None else '_v%d' % vn)
+            body = ['extern "C" void %s() {' % ename, '  // %s' % key, '  PyObject *args = vpy_tuple(%d);' % len(cats)]
+            bn = []
+            for i, (cat, base) in enumerate(list(cats)):
+                T = ptypes[i]
+                if cat == 'objptr':
+                    b = ov.get((key, i), ident(base))
+                    cats[i] = (cat, base, b)
+                    body.append('  %s *a%d = verif_make_%s(); %s *b%d = verif_clone_%s(a%d);' % (base, i, b, base, i, b, i))
+                    body.append('  vpy_tuple_set(args, %d, vpy_uint((unsigned long)a%d));' % (i, i))
+                elif cat == 'cstr':
+                    body.append('  const char *a%d = verif_make_cstr(); const char *b%d = a%d;' % (i, i, i))
+                    body.append('  vpy_tuple_set(args, %d, vpy_str(a%d));' % (i, i))
+                elif cat == 'enum':
+                    body.append('  %s a%d = verif_make_%s(); %s b%d = a%d;' % (T, i, ident(base), T, i, i))
+                    body.append('  vpy_tuple_set(args, %d, vpy_int((long)a%d));' % (i, i))
+                else:
+                    body.append('  %s a%d = Nd<%s>::get(); %s b%d = a%d;' % (T, i, T, T, i, i))
+                    body.append('  vpy_tuple_set(args, %d, vpy_of(a%d));' % (i, i))
+                bn.append('(%s)b%d' % (T, i))
+            call_r = '%s(%s)' % (refs[key], ', '.join(bn))
+            body.append('  g_trace = 0;')
+            body.append('  PyObject *rw = %s(0, args); int tw = g_trace; g_trace = 0;' % w['name'])
+            body.append('  ASSERT(rw != 0 && vpy_get_error() == 0, "C01 python wrapper accepts every argument tuple whose values lie in the parameter types");')
+            if rcat[0] == 'void':
+                body.append('  %s; int tr = g_trace;' % call_r)
+                body.append('  ASSERT(rw == 0 || vpy_kind(rw) == 6, "C01 python wrapper of a void function returns None");')
+            else:
+                body.append('  %s rr = %s; int tr = g_trace;' % (rtype, call_r))
+            body.append('  ASSERT(rw == 0 || tw == tr, "C01 wrapper reaches the overload/default variant the database names (trace cell)");')
+            if rcat[0] == 'objptr':
+                b = ident(rcat[1])
+                body.append('  %s *pw = rw ? (%s *)vpy_ival(rw) : 0;' % (rcat[1], rcat[1]))
+                body.append('  ASSERT(rw == 0 || vpy_kind(rw) == 1, "C01 python wrapper returns object handles as integers");')
+                body.append('  ASSERT(rw == 0 || (pw == 0) == (rr == 0), "C01 wrapper result null-ness equals the direct call");')
+                for i, c in enumerate(cats):
+                    if c[0] == 'objptr':
+                        body.append('  ASSERT(rw == 0 || ((const void *)pw == (const void *)a%d) == ((const void *)rr == (const void *)b%d), "C01 wrapper result aliases the same argument as the direct call");' % (i, i))
+                body.append('  ASSERT(rw == 0 || pw == 0 || rr == 0 || verif_same_%s(pw, rr), "C01 wrapper result object equals the direct call result");' % b)
+            elif rcat[0] == 'cstr':
+                body.append('  ASSERT(rw == 0 || (vpy_kind(rw) == 4 && verif_same_cstr(vpy_sptr(rw), rr)), "C01 wrapper string result equals the direct call");')
+            elif rcat[0] in ('scalar', 'enum'):
+                body.append('  ASSERT(rw == 0 || vpy_equals(rw, rr), "C01 wrapper return value equals the direct call");')
+            for i, c in enumerate(cats):
+                if c[0] == 'objptr':
+                    body.append('  ASSERT(rw == 0 || verif_same_%s(a%d, b%d), "C01 wrapper leaves argument objects in the same state as the direct call");' % (c[2], i, i))
+            body.append('  WITNESS();')
+            body.append('}')
+            out += body + ['']
+            entries.append(dict(entry=ename, wrapper=w['name'], key=key, function=w['function'], params=ptypes, ret=rtype))
+    unused = sorted(set(refs) - used_keys)
+    return '\n'.join(out), entries, skipped, missing, unused
+
+
 def run_cbmc(unit_c, models, entry, workdir, cap, unwind):
     outp = os.path.join(workdir, entry + '.json')
     cmd = ['cbmc', unit_c] + models + ['--function', entry, '--unwind', str(unwind)] + CBMC_FLAGS + ['--trace', '--json-ui']
@@ -284,8 +372,11 @@ def native_replay(scratch, tag, harness_src, gen_cxx, entry, values, toolbuild, 
     os.makedirs(d, exist_ok=True)
     binp = os.path.join(d, entry)
     base = ['g++', '-std=gnu++11', '-O0', '-g', '-w', '-fsanitize=address,undefined', '-fno-sanitize-recover=undefined'] + incs
+    extra = []
+    if '#include "vpy.h"' in open(harness_src).read():
+        extra = [os.path.join(VERIF, 'harness/c01/vpy_native.cxx'), '-lpython3.11']
     p = run(base + ['-DVERIF_ENTRY=' + entry, harness_src, gen_cxx, os.path.join(VERIF, 'engine/replay_rt.cxx'),
-                    '-L' + toolbuild + '/lib', '-linterrogatedb', '-Wl,-rpath,' + toolbuild + '/lib', '-o', binp])
+                    '-L' + toolbuild + '/lib', '-linterrogatedb', '-Wl,-rpath,' + toolbuild + '/lib'] + extra + ['-o', binp])
     if p.returncode != 0:
         return dict(confirmed=False, detail='native build failed: ' + p.stdout[-800:])
     inp = binp + '.in'
@@ -322,8 +413,8 @@ def main():
         if a.only:
             corpora = [c for c in corpora if c == a.only]
         strmax = 3 if tier == 'quick' else 5
-        models = [os.path.join(VERIF, 'models', m) for m in ('base.c', 'env.c', 'rbtree.c', 'stream.c')]
-        incs = ['-I' + CORPUS, '-I' + os.path.join(VERIF, 'shims'), '-I' + os.path.join(VERIF, 'harness/c01'), '-I' + os.path.join(VERIF, 'harness')] + \
+        models = [os.path.join(VERIF, 'models', m) for m in ('base.c', 'env.c', 'rbtree.c', 'stream.c', 'cpython.c')]
+        incs = ['-I' + CORPUS, '-I' + os.path.join(VERIF, 'shims'), '-I' + os.path.join(VERIF, 'harness/c01'), '-I' + os.path.join(VERIF, 'harness'), '-I/usr/include/python3.11'] + \
                ['-I%s/src/%s' % (lower.REPO, d) for d in lower.SRC_DIRS]
         jobs = []
         for corpus in corpora:
@@ -354,10 +445,13 @@ def main():
                 if sc.returncode != 0:
                     violations.append(dict(corpus=tag, what='generated code does not compile: ' + sc.stdout[-700:], cmd=' '.join(cmd)))
                     continue
-                callable_w = [w for w in db['wrappers'] if w['callable_by_name']]
+                kind = 'python' if '-python' in opts else 'c'
+                callable_w = [w for w in db['wrappers'] if w['callable_by_name'] and w['kind'] == kind]
                 if '-nodb' in opts or not callable_w:
                     continue
-                src, entries, skipped, missing, unused = gen_harness(corpus, optname, callable_w, refs, strmax, parse_args(os.path.join(CORPUS, corpus + '.ref.h')), parse_variants(os.path.join(CORPUS, corpus + '.ref.h')))
+                is_py = '-python' in opts
+                gh = gen_harness_py if is_py else gen_harness
+                src, entries, skipped, missing, unused = gh(corpus, optname, callable_w, refs, strmax, parse_args(os.path.join(CORPUS, corpus + '.ref.h')), parse_variants(os.path.join(CORPUS, corpus + '.ref.h')))
                 hsrc = os.path.join(wd, 'harness_%s.cxx' % tag.replace('.', '_'))
                 open(hsrc, 'w').write(src)
                 for (wn, key) in missing:
@@ -370,7 +464,7 @@ def main():
                 if not entries:
                     continue
                 try:
-                    unit_c, meta = L.build_unit(tag, hsrc, [e['entry'] for e in entries], [gen], hflags=incs[:4] + ['-fno-fast-math'], tuflags=incs[:4] + ['-fno-fast-math'])
+                    unit_c, meta = L.build_unit(tag, hsrc, [e['entry'] for e in entries], [gen], hflags=incs[:5] + ['-fno-fast-math'], tuflags=incs[:5] + ['-fno-fast-math'])
                 except Exception as e:
                     # generated code that does not compile is itself a violation (C03/C01)
                     msg = str(e)
